@@ -502,8 +502,8 @@ fn nuts_case(_ctx: &Ctx, rep: &mut Report, case: u64, g: &mut Sm64) {
     let n_chains = g.range(1, 4);
     let dim = g.range(1, 4);
     let seed = g.next_u64() >> 2;
-    let n_collect = g.range(1, 10);
-    let n_discard = g.range(0, 8);
+    // (a third of the histories start with the smallest possible request: one kept draw, no warm-up)
+    let (n_collect, n_discard) = if g.chance(0.33) { (1, 0) } else { (g.range(1, 10), g.range(0, 8)) };
     let inits: Vec<Vec<f64>> = (0..n_chains).map(|_| (0..dim).map(|_| g.normal()).collect()).collect();
     let target = DiagGauss::new((0..dim).map(|i| 0.7 + i as f64 * 0.4).collect(), vec![0.0; dim]);
     let delta = g.uniform(0.5, 0.99);
@@ -512,6 +512,10 @@ fn nuts_case(_ctx: &Ctx, rep: &mut Report, case: u64, g: &mut Sm64) {
     let r = guard(|| {
         let mut multi = NUTS::<f64, B64, DiagGauss>::new(target.clone(), inits.clone(), delta).set_seed(seed);
         let out = tensor3_bits(&multi.run(n_collect, n_discard));
+        // the runner's second run must again equal what its chains do individually
+        reset_budget(1 << 18);
+        let out2 = tensor3_bits(&multi.run(n_collect2, n_discard2));
+        reset_budget(u64::MAX);
         // per-chain twins, traced
         let mut per_chain = vec![];
         for (i, init) in inits.iter().enumerate() {
@@ -536,10 +540,10 @@ fn nuts_case(_ctx: &Ctx, rep: &mut Report, case: u64, g: &mut Sm64) {
             let rows2: Vec<f64> = t2.to_data().iter::<f64>().collect();
             per_chain.push((dims, rows, events, m, pos, rows2, events2, ch.verif_adapt_state().0));
         }
-        (out, per_chain)
+        (out, out2, per_chain)
     });
     rep.evals(1 + n_chains as u64);
-    let (out, per_chain) = match r {
+    let (out, out2, per_chain) = match r {
         Ok(x) => x,
         Err(m) => {
             reset_budget(u64::MAX);
@@ -567,6 +571,15 @@ fn nuts_case(_ctx: &Ctx, rep: &mut Report, case: u64, g: &mut Sm64) {
             for j in 0..dim {
                 if out.1[(c * n_collect + k) * dim + j] != rows[k * dim + j].to_bits() {
                     rep.violation(&format!("{sig} differs-from-individually-run-chain"), mon, case,
+                        json!({"ctx": ctxj, "chain": c, "k": k, "j": j}));
+                    return;
+                }
+            }
+        }
+        for k in 0..n_collect2 {
+            for j in 0..dim {
+                if out2.0 != [n_chains, n_collect2, dim] || out2.1[(c * n_collect2 + k) * dim + j] != rows2[k * dim + j].to_bits() {
+                    rep.violation(&format!("{sig} second-run-differs-from-individually-run-chain"), mon, case,
                         json!({"ctx": ctxj, "chain": c, "k": k, "j": j}));
                     return;
                 }
